@@ -38,7 +38,7 @@ META = {
         "technique": "Lean 4 refinement proof (case analysis + induction over operation sequences) on regenerated routing; differential random histories",
     },
     "C13": {
-        "text": "Proof over the pipeline model (gate, regenerated routing, fan-out with the regenerated reaction condition): a call always returns; every selected destination gets exactly one attempt whatever the others do; at most one diagnostic per call, none for a warning or when the logger does not admit warnings, routed as a warning otherwise; no sticky state (a call depends on earlier failures only through the position in the failure schedule); lifted to whole histories by induction over the call list (runCalls): one entry per call and at most two records in each whatever the schedule (sequence_bounded), a history splits at any point with only the schedule position carried over (history_splits), and once the schedule holds no further failure every later call produces exactly what a logger whose destinations never failed produces (recovery). Structural facts about LWs.Write/printOut are regenerated. Correspondence enumerates all 2^6 failure schedules per call, and replays three-call histories under one schedule running across the calls against runCalls (protocol line `calls`).",
+        "text": "Proof over the pipeline model (gate, regenerated routing, fan-out with the regenerated reaction condition): a call always returns; every selected destination gets exactly one attempt whatever the others do; at most one diagnostic per call, none for a warning or when the logger does not admit warnings, routed as a warning otherwise, and a second record appears only after a failed attempt of the call's own non-warning record (diagnostic_only_after_failure); no sticky state (a call depends on earlier failures only through the position in the failure schedule); lifted to whole histories by induction over the call list (runCalls): one entry per call and at most two records in each whatever the schedule (sequence_bounded), a history splits at any point with only the schedule position carried over (history_splits), and once the schedule holds no further failure every later call produces exactly what a logger whose destinations never failed produces (recovery). Structural facts about LWs.Write/printOut are regenerated. Correspondence enumerates all 2^6 failure schedules per call, and replays three-call histories under one schedule running across the calls against runCalls (protocol line `calls`).",
         "design_ref": "DESIGN.md §7 C13",
         "note": "Trusted: Lean kernel; extractor (structural facts: one loop without early exit in LWs.Write, tell->write->warn order in printOut); errors.Join; the recursion bound rests on the regenerated condition lvl != WarnLevel.",
         "technique": "Lean 4 proof over a pipeline model with failure schedules (case analysis); exhaustive schedule enumeration in the correspondence",
